@@ -254,6 +254,16 @@ class Translator:
             self.fns[key] = info
             self.order.append(key)
             return info
+        if mode == "sites":
+            decl = astdump.get_function(cfile, fname)
+            if decl is None:
+                raise Unsupported("no definition of %s visible in %s" % (fname, cfile))
+            ft = FnTrans(self, cfile, decl, mode)
+            info = ft.translate()
+            info.coqname = sanitize(key)
+            self.fns["sites:" + key] = info
+            self.order.append("sites:" + key)
+            return info
         if fname in self.fns:
             return self.fns[fname]
         if fname in self.failed:
@@ -479,8 +489,27 @@ class FnTrans:
                 order = ORDER.get(o.get("referencedDecl", {}).get("name"), "SeqCst")
                 if order != "Relaxed":
                     self.sites.append((n.get("line", 0), "KFence", "fence", order))
+            if k == "CallExpr" and self.mode == "sites":
+                cn = callee_name(n)
+                if cn and not cn.startswith("__") and cn not in seen and len(seen) < 40 and \
+                        cn not in self.tr.cfg.get("sites_stop", []):
+                    # arguments first (evaluation order), then the callee's own sites when its body is visible (inline)
+                    for c in n.get("inner", [])[1:]:
+                        walk(c)
+                    try:
+                        d = astdump.get_function(self.cfile, cn)
+                    except Exception:
+                        d = None
+                    if d is not None:
+                        seen.add(cn)
+                        for c in d.get("inner", []):
+                            if c.get("kind") == "CompoundStmt":
+                                walk(c)
+                        seen.discard(cn)
+                    return
             for c in n.get("inner", []):
                 walk(c)
+        seen = {self.info.name}
         walk(body)
 
     # ---------------------------------------------------------- statements
@@ -1832,7 +1861,10 @@ def generate(cfgpath, outdir):
         for fname in tr.order:
             info = tr.fns[fname]
             if info.mode == "sites":
-                pass
+                ss = "; ".join("{| s_kind := %s; s_field := %d (* %s *); s_order := %s |}" %
+                               (k, tr.field_id(f), f, o) for (_, k, f, o) in info.sites)
+                out.append("Definition %s_sites : list site := [%s].\n" % (info.coqname, ss))
+                continue
             else:
                 out.append(info.text)
                 if info.mode == "rmw":
@@ -1844,7 +1876,7 @@ def generate(cfgpath, outdir):
                 out.append("Definition %s_sites : list site := [%s].\n" % (info.coqname, ss))
         write_if_changed(os.path.join(outdir, mod["name"] + ".v"), "\n".join(out) + "\n")
         results[mod["name"]] = {fn: [(p["coq"], p["kind"]) for p in tr.fns[fn].params] for fn in tr.order
-                                if tr.fns[fn].mode != "sites"}
+                                if tr.fns[fn].mode != "sites" and not fn.startswith("sites:")}
     # field table
     fl = ["(* generated by src2v — do not edit *)", "From Coq Require Import List.", "Import ListNotations.", ""]
     for f, i in sorted(all_fields.items(), key=lambda x: x[1]):
